@@ -12,8 +12,9 @@ Definition mv := (Z * str * Z)%type.          (* id, name, uid_next *)
 Definition lv := (Z * Z * Z * Z)%type.        (* id, message_id, mailbox_id, uid *)
 Definition gv := (Z * Z * Z)%type.            (* message id, header rows, part rows *)
 Definition store_obs := (key * list mv * list lv * list gv)%type.
-(* configuration (folder, max_size, quota_enabled), ACCEPTED recipients, message, its size *)
-Definition txn := (cfg * list str * parsed * Z)%type.
+(* configuration (folder, max_size, quota_enabled), the recipients CheckRecipientQuota refuses
+   (measured from the databases), ACCEPTED recipients, message, its size *)
+Definition txn := (cfg * list str * list str * parsed * Z)%type.
 Definition txn_obs := (list Z * list store_obs)%type.
 
 Definition mv_eqb (a b : mv) : bool :=
@@ -65,17 +66,16 @@ Definition clk_obs : nat -> Z := fun _ => 0.
     the model *)
 Fixpoint eval_txns (w : world) (ts : list txn) (os : list txn_obs) : list (Z * Z * list Z) :=
   match ts, os with
-  | (c, rs, p, size) :: tr, (codes, sobs) :: orest =>
-    let folder := c_folder c in
-    (* CheckQuota's verdict is an input the code ignores: evaluate with "everybody is over quota" *)
-    let '(w', replies, _) := handle_data c (fun _ => true) w rs p size clk_obs in
+  | (c, over, rs, p, size) :: tr, (codes, sobs) :: orest =>
+    let oq := fun r => existsb (str_eqb r) over in
+    let '(w', replies, _) := handle_data c oq w rs p size clk_obs in
     let mcodes := map code_of replies in
     let agree :=
       if negb (zlist_eqb codes mcodes) then 1
       else let s := first_nonzero (map (store_agrees w') sobs) in
            if negb (s =? 0) then s
            else if negb (Nat.eqb (length sobs) (length (w_stores w'))) then 6 else 0 in
-    (agree, (if c_max_size c <? size then 0 else class_code (classify w folder rs p clk_obs)), mcodes) :: eval_txns w' tr orest
+    (agree, class_code (classify_cfg c oq w rs p size clk_obs), mcodes) :: eval_txns w' tr orest
   | _, _ => []
   end.
 
